@@ -979,7 +979,12 @@ func (n *AlertNode) event(
 ) (alert.Event, error) {
 	msg, details, err := n.renderMessageAndDetails(id, name, t, group, tags, fields, level, d)
 	if err != nil {
-		return alert.Event{}, err
+		// A template that fails on the data of one point, e.g. a comparison with a field of another type,
+		// must neither end the task nor lose the alert.
+		n.incrementErrorCount()
+		n.diag.Error("failed to render alert message", err)
+		msg = fmt.Sprintf("failed to render alert message: %v", err)
+		details = msg
 	}
 	event := alert.Event{
 		Topic: n.anonTopic,
